@@ -329,6 +329,12 @@ pub open spec fn cc_inv(a: AArena<2>, c: Seq<usize>, it: Seq<usize>, clazz: usiz
     &&& a[c.last()].isleaf && no_kids(a[c.last()])
 }
 
+pub proof fn lemma_cc_facts(a: AArena<2>, c: Seq<usize>, it: Seq<usize>, clazz: usize, dim: usize)
+    requires cc_inv(a, c, it, clazz, dim)
+    ensures c.len() >= 1, a.dom().contains(c.last()), a[c.last()].isleaf, no_kids(a[c.last()]), c.len() <= it.len()
+{
+    reveal(cc_inv);
+}
 pub proof fn lemma_cc_init(a: AArena<2>, it: Seq<usize>, clazz: usize, dim: usize)
     requires a.dom() =~= set![0usize], a[0].isleaf, no_kids(a[0]), le_pred(a[0].value.aff, dim, it[0], clazz), it.len() >= 1
     ensures cc_inv(a, seq![0usize], it, clazz, dim)
@@ -550,7 +556,7 @@ impl<A: Float> AffFuncG<A> {
         decreases __it@.len() - __j
 //@hint loop 1 start
         let ghost a0 = dd.a();
-        proof { reveal(cc_inv); assert(c[c.len() - 1] == last_node); }
+        proof { lemma_cc_facts(dd.a(), c, __it@, clazz, dim); }
 //@hint after dd.add_child_node(last_node, 0, AffFunc::constant(dim, flit(0, 1))) .unwrap();
         let ghost a1 = dd.a();
 //@hint after last_node = new_node;
@@ -562,7 +568,7 @@ impl<A: Float> AffFuncG<A> {
         }
 //@hint loop 1 after
     let ghost b0 = dd.a();
-    proof { reveal(cc_inv); assert(c[c.len() - 1] == last_node); }
+    proof { lemma_cc_facts(dd.a(), c, __it@, clazz, dim); }
 //@hint after#2 dd.add_child_node(last_node, 0, AffFunc::constant(dim, flit(0, 1))) .unwrap();
     let ghost b1 = dd.a();
 //@hint after dd.add_child_node(last_node, 1, AffFunc::constant(dim, flit(1, 1))) .unwrap();
